@@ -270,6 +270,9 @@ FAMILIES = {
 
 # fixed-size edge inputs (constant expressions at the limits, sizes near 2^64, ...)
 EDGES = [
+    # struct/union bodies that declare no named member
+    "struct pad{int:3;};struct pad p={0};", "struct chk{_Static_assert(1,\"\");};struct outer{struct chk c;int x;};", "union u{int:0;};void f(void){union u v={1};}",
+    "struct e{int:0;int:5;}x;int y=sizeof x;", "struct s{_Static_assert(1,\"\");int:1;};void f(void){struct s a={},b;b=a;}", "struct t{struct{int:2;};};struct t v={{0}};",
     # void expressions in every position a value may be dropped
     "void f(void*b){*b;}", "void g(void);void f(void*b,int c){c?*b:g();}", "void f(void*b){(void)*b;}", "void f(const void*b){*b,*b;}", "void f(void){*(void*)0;}",
     "void f(volatile void*b){*b;}", "void f(void*b){for(*b;;*b)break;}", "void g(void);void f(void*b){g(),*b;}", "void f(void**b){**b;}", "void f(void*b){b[0];}",
